@@ -285,6 +285,32 @@ Theorem C15_bip340_message_changed : forall n yodd M (chal : Z -> Z -> M -> Z),
 Proof. exact bip_message_changed. Qed.
 Print Assumptions C15_bip340_message_changed.
 
+(* wire forms (64-byte BIP-340 / Mina signatures, 32-byte x-only keys): accepted iff every component is the
+   canonical representative (x < p, s < n), decodes to a point, and the decoded signature verifies *)
+Theorem C15_bip340_wire_accept_iff : forall n yodd M (chal : Z -> Z -> M -> Z) p lift_even px rx s m,
+  bip_verify_wire n yodd M chal p lift_even px rx s m = true <->
+  (0 <= px < p /\ 0 <= rx < p /\ 0 <= s < n /\
+   exists P R, lift_even px = Some P /\ lift_even rx = Some R /\
+               bip_verify n yodd M chal (mk_ssig (mk_gelt true R) s) (mk_gelt true P) m = true).
+Proof. exact bip_wire_accept_iff. Qed.
+Print Assumptions C15_bip340_wire_accept_iff.
+
+Theorem C15_mina_wire_accept_iff : forall n M (chal : Z -> Z -> M -> Z) p lift_even rx s pk m,
+  mina_verify_wire n M chal p lift_even rx s pk m = true <->
+  (0 <= rx < p /\ 0 <= s < n /\
+   exists R, lift_even rx = Some R /\ mina_verify n M chal (mk_ssig (mk_gelt true R) s) pk m = true).
+Proof. exact mina_wire_accept_iff. Qed.
+Print Assumptions C15_mina_wire_accept_iff.
+
+(* the encodings of s + k·n, k >= 1, are rejected whatever else the string contains *)
+Theorem C15_wire_shifted_scalar_rejected : forall n yodd M (chal : Z -> Z -> M -> Z),
+  prime n ->
+  forall p lift_even px rx s m k, 0 <= s -> 0 < n -> 1 <= k ->
+  bip_verify_wire n yodd M chal p lift_even px rx (s + k * n) m = false /\
+  forall pk, mina_verify_wire n M chal p lift_even rx (s + k * n) pk m = false.
+Proof. exact wire_shifted_component_rejected. Qed.
+Print Assumptions C15_wire_shifted_scalar_rejected.
+
 (* ============================================ BLS ================================================ *)
 (* feq q f g: the linear forms f, g have the same coefficients mod q (the same group element) *)
 Theorem C15_bls_sign_verify : forall q pkenc,
